@@ -37,10 +37,10 @@ Proof.
 Qed.
 
 (* FullName.Name() / Parent() invert the join when the name is a single identifier *)
-Lemma fullname_name_parent_join p n : ~ In dot n -> (p = [] -> n <> []) ->
+Lemma fullname_name_parent_join p n : ~ In dot n ->
   fullname_name (append_full_name p n) = n /\ fullname_parent (append_full_name p n) = p.
 Proof.
-  intros H _. rewrite append_full_name_join. unfold join_full_name, fullname_name, fullname_parent.
+  intros H. rewrite append_full_name_join. unfold join_full_name, fullname_name, fullname_parent.
   destruct p as [|c p].
   - now rewrite split_last_dot_nodot.
   - now rewrite (split_last_dot_app (c :: p) n H).
